@@ -125,3 +125,26 @@ def _beyond_int_limit(violation, m):
 
         return any(len(r) > lim for r in re.findall(r"[0-9]+", s))
     return False
+
+
+@matcher("arbitrary_text_not_a_version")
+def arbitrary_text_not_a_version(violation, m):
+    """`===S` with S not a version, default pre-release setting: `.prereleases` parses S"""
+    from packaging.version import InvalidVersion, Version
+    law, inp = violation["law"], violation["input"]
+    if law == "in_operator_final_candidate":
+        if inp.get("op") != "===":
+            return False
+        text = inp["raw"]
+    elif law == "contains_vs_spec_strings" and inp.get("mode") == "in":
+        cl = inp["clause"].strip()
+        if not cl.startswith("==="):
+            return False
+        text = cl[3:].strip()
+    else:
+        return False
+    try:
+        Version(text)
+    except InvalidVersion:
+        return True
+    return False
